@@ -2,6 +2,8 @@ package main
 
 import (
 	"go/ast"
+	"go/constant"
+	"strconv"
 	"go/token"
 	"go/types"
 	"strings"
@@ -11,6 +13,69 @@ import (
 // identifier or selector chain (rendered as text) it remembers "nil", "nonnil"
 // or the key of the constant last assigned/compared equal.
 type facts map[string]string
+
+// volatile names may change behind the path's back (assigned inside a nested
+// literal, or their address is taken): no facts are kept about them.
+var volatile = map[string]bool{}
+
+func computeVolatile(info *types.Info, body ast.Node) map[string]bool {
+	out := map[string]bool{}
+	var lits []*ast.FuncLit
+	ast.Inspect(body, func(n ast.Node) bool {
+		switch x := n.(type) {
+		case *ast.FuncLit:
+			if ast.Node(x) != body {
+				lits = append(lits, x)
+			}
+		case *ast.UnaryExpr:
+			if x.Op == token.AND {
+				if k := chainKey(x.X); k != "" {
+					out[k] = true
+				}
+			}
+		}
+		return true
+	})
+	for _, l := range lits {
+		ast.Inspect(l.Body, func(n ast.Node) bool {
+			switch x := n.(type) {
+			case *ast.AssignStmt:
+				for _, lh := range x.Lhs {
+					root := ast.Unparen(lh)
+					for {
+						if s, ok := root.(*ast.SelectorExpr); ok {
+							root = ast.Unparen(s.X)
+							continue
+						}
+						break
+					}
+					if id, ok := root.(*ast.Ident); ok {
+						if o := info.ObjectOf(id); o != nil && (o.Pos() < l.Pos() || o.Pos() > l.End()) {
+							out[id.Name] = true
+						}
+					}
+				}
+			case *ast.IncDecStmt:
+				if id, ok := ast.Unparen(x.X).(*ast.Ident); ok {
+					out[id.Name] = true
+				}
+			}
+			return true
+		})
+	}
+	return out
+}
+
+func isVolatile(key string) bool {
+	if key == "" {
+		return false
+	}
+	root := key
+	if i := strings.Index(key, "."); i >= 0 {
+		root = key[:i]
+	}
+	return volatile[root] || volatile[key]
+}
 
 func (fa facts) clone() facts {
 	out := make(facts, len(fa))
@@ -49,9 +114,58 @@ func (fa facts) kill(key string) {
 	}
 }
 
+// killConds forgets memoised conditions that mention name.
+func (fa facts) killConds(name string) {
+	for k := range fa {
+		if strings.HasPrefix(k, "cond:") && containsWord(k[5:], name) {
+			delete(fa, k)
+		}
+	}
+}
+
+func containsWord(s, w string) bool {
+	for i := 0; i+len(w) <= len(s); i++ {
+		if s[i:i+len(w)] != w {
+			continue
+		}
+		before := i == 0 || !isIdentChar(s[i-1])
+		after := i+len(w) == len(s) || !isIdentChar(s[i+len(w)])
+		if before && after {
+			return true
+		}
+	}
+	return false
+}
+
+func isIdentChar(c byte) bool {
+	return c == '_' || c == '.' || (c >= '0' && c <= '9') || (c >= 'a' && c <= 'z') || (c >= 'A' && c <= 'Z')
+}
+
+// pureCond: only identifiers, selectors, literals, len() and operators.
+func pureCond(e ast.Expr) bool {
+	pure := true
+	ast.Inspect(e, func(n ast.Node) bool {
+		switch x := n.(type) {
+		case *ast.CallExpr:
+			if id, ok := x.Fun.(*ast.Ident); !ok || id.Name != "len" {
+				pure = false
+			}
+		case *ast.FuncLit, *ast.UnaryExpr:
+			if u, ok := x.(*ast.UnaryExpr); ok && (u.Op == token.NOT || u.Op == token.SUB) {
+				return true
+			}
+			pure = false
+		case *ast.IndexExpr, *ast.SliceExpr, *ast.StarExpr, *ast.TypeAssertExpr:
+			pure = false
+		}
+		return pure
+	})
+	return pure
+}
+
 func (fa facts) killFields() {
 	for k := range fa {
-		if strings.Contains(k, ".") {
+		if strings.Contains(k, ".") && !strings.HasPrefix(k, "cond:") {
 			delete(fa, k)
 		}
 	}
@@ -80,6 +194,13 @@ func absValue(info *types.Info, e ast.Expr) string {
 			}
 		}
 		return ""
+	}
+	if tv, ok := info.Types[e]; ok && tv.Value != nil && tv.Value.Kind() == constant.Int {
+		if _, isLit := e.(*ast.BasicLit); isLit {
+			if n, exact := constant.Int64Val(tv.Value); exact {
+				return "int:" + strconv.FormatInt(n, 10)
+			}
+		}
 	}
 	v := ValueKey(info, e)
 	if v == "nil" {
@@ -116,9 +237,24 @@ func (fa facts) apply(info *types.Info, e Event) bool {
 			if k == "" {
 				continue
 			}
+			if e.Tok == token.INC || e.Tok == token.DEC {
+				if cur, ok := fa[k]; ok && strings.HasPrefix(cur, "int:") {
+					n, _ := strconv.Atoi(strings.TrimPrefix(cur, "int:"))
+					if e.Tok == token.INC {
+						n++
+					} else {
+						n--
+					}
+					fa.kill(k)
+					fa.killConds(k)
+					fa[k] = "int:" + strconv.Itoa(n)
+					continue
+				}
+			}
 			fa.kill(k)
+			fa.killConds(k)
 			if len(e.Rhs) == len(e.Lhs) && (e.Tok == token.ASSIGN || e.Tok == token.DEFINE) {
-				if v := absValue(info, e.Rhs[i]); v != "" {
+				if v := absValue(info, e.Rhs[i]); v != "" && !isVolatile(k) {
 					fa[k] = v
 				}
 				// fields of a composite literal with constant values
@@ -153,7 +289,30 @@ func (fa facts) apply(info *types.Info, e Event) bool {
 	case EvRange:
 		if rs, ok := e.Clause.(*ast.RangeStmt); ok {
 			fa.kill(chainKey(rs.Key))
+			fa.killConds(chainKey(rs.Key))
 			fa.kill(chainKey(rs.Value))
+			fa.killConds(chainKey(rs.Value))
+			ck := "rangecount:" + strconv.Itoa(int(rs.Pos()))
+			n := 0
+			if cur, ok := fa[ck]; ok {
+				n, _ = strconv.Atoi(cur)
+			}
+			if e.Taken {
+				if k := chainKey(rs.Key); k != "" {
+					if tv, ok := info.Types[rs.X]; ok {
+						switch tv.Type.Underlying().(type) {
+						case *types.Slice, *types.Array:
+							fa[k] = "int:" + strconv.Itoa(n)
+						}
+					}
+				}
+				fa[ck] = strconv.Itoa(n + 1)
+			} else if n == 0 {
+				// the loop body is never entered: infeasible if the collection is known non-empty
+				if fa["cond:len("+ExprStr(rs.X)+") > 0"] == "const:true" {
+					return false
+				}
+			}
 		}
 	case EvBranch:
 		if e.Cond == nil {
@@ -175,6 +334,9 @@ func (fa facts) apply(info *types.Info, e Event) bool {
 
 // assume records/checks "key == v" (eq) or "key != v".
 func (fa facts) assume(key, v string, eq bool) bool {
+	if isVolatile(key) {
+		return true
+	}
 	cur, known := fa[key]
 	if eq {
 		if known {
@@ -211,6 +373,29 @@ func (fa facts) assume(key, v string, eq bool) bool {
 	return true
 }
 
+// memo remembers the outcome of a pure condition so that re-evaluating the same
+// condition (with none of its variables assigned in between) must agree.
+func (fa facts) memo(cond ast.Expr, truth bool) bool {
+	if !pureCond(cond) {
+		return true
+	}
+	for name := range volatile {
+		if containsWord(ExprStr(cond), name) {
+			return true
+		}
+	}
+	k := "cond:" + ExprStr(cond)
+	v := "const:false"
+	if truth {
+		v = "const:true"
+	}
+	if cur, ok := fa[k]; ok {
+		return cur == v
+	}
+	fa[k] = v
+	return true
+}
+
 func (fa facts) assumeCond(info *types.Info, cond ast.Expr, truth bool) bool {
 	cond = ast.Unparen(cond)
 	switch x := cond.(type) {
@@ -230,7 +415,36 @@ func (fa facts) assumeCond(info *types.Info, cond ast.Expr, truth bool) bool {
 				return fa.assumeCond(info, x.X, false) && fa.assumeCond(info, x.Y, false)
 			}
 			return true
+		case token.LSS, token.GTR, token.LEQ, token.GEQ:
+			if k := chainKey(x.X); k != "" {
+				if cur, ok := fa[k]; ok && strings.HasPrefix(cur, "int:") {
+					if c, isC := ConstInt(info, x.Y); isC {
+						n, _ := strconv.ParseInt(strings.TrimPrefix(cur, "int:"), 10, 64)
+						var holds bool
+						switch x.Op {
+						case token.LSS:
+							holds = n < c
+						case token.GTR:
+							holds = n > c
+						case token.LEQ:
+							holds = n <= c
+						case token.GEQ:
+							holds = n >= c
+						}
+						return holds == truth
+					}
+				}
+			}
+			return fa.memo(cond, truth)
 		case token.EQL, token.NEQ:
+			if k := chainKey(x.X); k != "" {
+				if cur, ok := fa[k]; ok && strings.HasPrefix(cur, "int:") {
+					if c, isC := ConstInt(info, x.Y); isC {
+						n, _ := strconv.ParseInt(strings.TrimPrefix(cur, "int:"), 10, 64)
+						return ((n == c) == (x.Op == token.EQL)) == truth
+					}
+				}
+			}
 			k, v := chainKey(x.X), absValue(info, x.Y)
 			if k == "" || v == "" || v == "nonnil" {
 				k, v = chainKey(x.Y), absValue(info, x.X)
